@@ -109,6 +109,21 @@ def families(tier):
     return [make_family(s) for s in shapes] + provider_families()
 
 
+def chain_world(ctx):
+    """p1 <- p2 <- p3 (a chain) and a separate root p4"""
+    from engine.scenario import World
+    w = World(ctx)
+    w.rc('VCPU')
+    w.project('proj')
+    w.user('user')
+    w.provider(1)
+    w.provider(2, parent=1)
+    w.provider(3, parent=2)
+    w.provider(4)
+    w.inventory(3, 'VCPU')
+    return w
+
+
 def provider_families():
     S = corpus.Shape
     shapes = [
@@ -118,6 +133,17 @@ def provider_families():
         S('prov-move-to-p3', corpus.put_provider(2, parent=3), kind='prov',
           wkw=dict(with_p3=True)),
         S('prov-delete', corpus.delete_provider(2), kind='prov'),
+        # whole subtrees: the moved provider has a child whose root pointer
+        # has to follow in the same atomic unit
+        S('prov-move-subtree', corpus.put_provider(1, parent=3), kind='prov',
+          wkw=dict(with_p3=True)),
+        S('prov-move-subtree-rename', corpus.put_provider(1, parent=3,
+                                                          name='p1x'),
+          kind='prov', wkw=dict(with_p3=True)),
+        S('prov-unparent-subtree', corpus.put_provider(2, parent=None),
+          kind='prov', world=chain_world),
+        S('prov-reparent-subtree', corpus.put_provider(2, parent=4),
+          kind='prov', world=chain_world),
     ]
     return [make_family(s) for s in shapes]
 
